@@ -27,6 +27,9 @@ def run(repo, run, tier):
     in_step_test(repo, run, IntegrateModel(repo), rule_id="C09.6")
     # a terminal event in the very first step empties the piece store (the rolled-back pieces are removed before the step is redone)
     emptiness(repo, run, "C09.7")
+    # 'a terminal event stops the run': the is_terminal flag is read from the object the caller passed
+    from .c07 import flags_from_given_object
+    flags_from_given_object(repo, run, "C09.10")
 
 
 # ------------------------------------------------------------------------------------------------
